@@ -411,8 +411,21 @@ def r163(repo, ctx):
         for t, v in pairs:
             if isinstance(t, ast.Subscript) and isinstance(t.value, ast.Name) and t.value.id == 's':
                 cells.setdefault(U.src(v), set()).add(U.src(t.slice).strip('()'))
-    s_ok = sum([cells.get('1 / E') == {'0, 0', '1, 1', '2, 2'}, cells.get('1 / G') == {'3, 3', '4, 4', '5, 5'},
-                cells.get('-nu / E') == {'0, 1', '0, 2', '1, 0', '1, 2', '2, 0', '2, 1'}])
+    # values compared as rational functions of (E, G, nu), not as text: 1.0 / E, E ** -1, -(nu / E) are the same entries
+    import sympy as sp
+    Es, Gs, nus = sp.symbols('E G nu', positive=True)
+    want = {sp.Integer(1) / Es: {'0, 0', '1, 1', '2, 2'}, sp.Integer(1) / Gs: {'3, 3', '4, 4', '5, 5'},
+            -nus / Es: {'0, 1', '0, 2', '1, 0', '1, 2', '2, 0', '2, 1'}}
+    got = {}
+    for txt, idxs in cells.items():
+        try:
+            v = ToSympy(atoms=lambda e: {'E': Es, 'G': Gs, 'nu': nus}.get(e.id) if isinstance(e, ast.Name) else None, env={}).tr(ast.parse(txt, mode='eval').body)
+        except (AnalysisError, SyntaxError):
+            continue
+        for w in want:
+            if sp.simplify(v - w) == 0:
+                got.setdefault(w, set()).update(idxs)
+    s_ok = sum(got.get(w) == idx for w, idx in want.items())
     ctx.check(s_ok == 3, 'R16.3', EF, 'moduliToC', f, 'isotropic compliance: 1/E on the normal diagonal, 1/G on the shear diagonal, -nu/E off-diagonal', 'the isotropic compliance matrix is not assembled as 1/E, 1/G, -nu/E')
 
 
